@@ -239,6 +239,6 @@ CLAUSES = [
            rule="integer-coordinate diagrams: 1..4 diagonal points inserted (either argument) and integer diagonal translation; all "
                 "coordinate differences are exact so squares must agree to the rounding floor; non-trivial = >= 2 off-diagonal points each"),
     Clause("stability", s_stab, check_stability, quick=2000, thorough=30000,
-           rule="heat^2 <= (W1/(4 sigma sqrt pi))^2 with W1 from the LP reference and from persim.wasserstein; non-trivial = >= 2 "
+           rule="heat^2 <= (W1/(4 sigma sqrt pi))^2 with W1 from the independent assignment reference and from persim.wasserstein; non-trivial = >= 2 "
                 "off-diagonal points each"),
 ]
